@@ -4,6 +4,7 @@ import LiskVerif.Gen.Schemas
 import Driver.Lisk32
 import LiskVerif.Model.CodecEntry
 import LiskVerif.Model.Sha256
+import Driver.CodecLife
 
 namespace Driver.Codec
 open LiskVerif LiskVerif.Codec LiskVerif.Gen
@@ -53,6 +54,8 @@ def step (_ : Unit) (w : List String) : Unit × String :=
     | ["newtx", hex] => entry "newtx" hex
     | ["newasset", hex] => entry "newasset" hex
     | ["newheader", hex] => entry "newheader" hex
+    | "life" :: kind :: hex :: rest => Driver.CodecLife.life kind hex rest
+    | ["blkjson", hdr, hid, txs] => Driver.CodecLife.blkjson hdr hid txs
     | ["tolisk", _] | ["tobytes", _] | ["validate", _] => (Driver.Lisk32.step () w).2
     | ["uvarint", n] => match n.toNat? with
       | some n => Hex.encode (putUvarint n)
